@@ -524,6 +524,7 @@ def run(tier, seed, cache=None, corrupt=None, strata=None):
     if ncomp == 0:
         raise common.Machinery('none of the rendered sample programs compiles: %s' % crashes[-1:])
     out['fully_compiled_samples'] = ncomp
+    out['accepted_shapes'] = accepted          # (shape text, flavour), seeded order: for the dynamic half of C16
     out['traces_validated_against_impl'] = out['cases']
     out['exhaustive'] = 'every shape of each stratum (node bound x alphabet), see strata'
     out['compiler_crashes'] = crashes
